@@ -23,6 +23,10 @@ P('C06','shared-state discipline: interprocedural freshness + must-hold locksets
   "Decides, for every function reachable from a per-request entry point and for every schedule (no schedule is needed), the structural necessary conditions of race freedom: no unsynchronised store into a structure that lives across requests, no plain access to an atomically accessed field, round-robin index taken from the atomic RMW result, nothing written after a table is published, one table snapshot per lookup, glob-cache eviction/size/double-check structure, no MustCompile/zero modulus on the lookup path. Exact per-target pick counts under interleavings are arithmetic over histories and are not decided beyond these necessary conditions.",
   COMMON_NOTE)
 
+P('C13','shared-state discipline (all schedules) + gate/ordering rules + interval-set analysis of one field + value-flow rules',
+  "Decides that no per-request entry can write a shared route.Target (the 'simultaneous requests' clause, for every interleaving), that the redirect answer is behind the gates, uses the per-request location and is never followed by upstream contact, that Target.RedirectCode is in {0} ∪ [300,399] on every path of addTarget (interval-set analysis incl. the Atoi error edge), that $path/$host are replaced from the request URL with strip before prepend and the query copied only when the template has none, and that a skipped self-redirect cannot be returned. The text of the Location per template form is string content and is not decided.",
+  COMMON_NOTE)
+
 checks=[]; na=[]
 for p in props:
     id=p['id']
